@@ -185,6 +185,13 @@ func FamilyName(thorough bool) []*Conv {
 		ExtraMethods: "\tPFXItem func(source PFXIn) PFXOut\n",
 		Decls:        "type PFXIn struct{ A int }\ntype PFXOut struct{ A int }\n", Spec: &Spec{},
 	})
+	// ... and the helpers goverter generates for nested pairs are called unqualified (they live in the output package)
+	out = append(out, &Conv{
+		ID: "name/variables_emitted_elsewhere_helper/variable", Family: "name", Format: "variable", Solo: true,
+		Params: "source PFXW", Results: "PFXWT",
+		ConvLines: []string{"output:file ./gen2/conv.go", "output:package corpus/GRP/gen2"},
+		Decls:     "type PFXIn struct{ A int }\ntype PFXOut struct{ A int }\ntype PFXW struct {\n\tOne PFXIn\n\tMany []*PFXIn\n}\ntype PFXWT struct {\n\tOne PFXOut\n\tMany []*PFXOut\n}\n", Spec: &Spec{},
+	})
 	// custom struct name / several converters in one file are exercised by every group of the other families
 	out = append(out, &Conv{
 		ID: "name/custom_struct_name/struct", Family: "name", Format: "struct",
